@@ -27,7 +27,11 @@ def strip_comments(src):
     i, n = 0, len(src)
     while i < n:
         c = src[i]
-        if c == '"' or c == "'":
+        if c == "'" and i > 0 and (src[i - 1].isalnum()) and i + 1 < n and src[i + 1].isalnum():
+            # C++14 digit separator (0x7fff'ffff), not a character literal
+            out.append(c)
+            i += 1
+        elif c == '"' or c == "'":
             j = i + 1
             while j < n and src[j] != c:
                 if src[j] == "\\":
